@@ -404,10 +404,23 @@ def removable_singularity(vtext, xs, p):
         p0 = [0.0 if i in idx else p[i] for i in range(k)]
         if py_eval_variant(vtext, xs, p0) is not None:
             continue
-        pe = [1e-30 if i in idx else p[i] for i in range(k)]
-        v = py_eval_variant(vtext, xs, pe)
-        if v is not None and all(abs(t) < 1e8 for t in v):
-            return True
+        for eps in (1e-30, 1e-12, 1e-6, 1e-3):          # (a tiny probe can overflow in an intermediate power although the limit is moderate)
+            pe = [eps if i in idx else p[i] for i in range(k)]
+            v = py_eval_variant(vtext, xs, pe)
+            if v is not None and all(abs(t) < 1e8 for t in v):
+                return True
+        # numpy's extended arithmetic (1/0 = inf, 1/inf = 0) is what the pipeline's lambdified functions use: finite there = not a singularity for it
+        try:
+            import numpy as _np
+            env = {"sqrt": _np.sqrt, "Abs": _np.abs, "exp": _np.exp, "log": lambda t: _np.log(_np.abs(t)), "x": _np.asarray(xs, float)}
+            for i, v_ in enumerate(p0):
+                env["a%d" % i] = _np.float64(v_)
+            with _np.errstate(all="ignore"):
+                val = _np.broadcast_to(_np.asarray(eval(vtext, {"__builtins__": {}}, env), dtype=complex), (len(xs),))
+            if _np.all(_np.isfinite(val)):
+                return True
+        except Exception:
+            pass
     return False
 
 
